@@ -150,8 +150,10 @@ class E3(object):
                     prior = []
                 else:
                     prior.append(e)
-            elif k == "sql" and e["db"] == "usage" and e["stmt"].kind == "insert":
-                self._check_usage_insert(path, e)
+            elif k in ("sql", "commit") and e["db"] == "usage":
+                self._check_usage_handle(path, e)
+                if k == "sql" and e["stmt"].kind == "insert":
+                    self._check_usage_insert(path, e)
             elif k == "sql" and e["db"] == "chan":
                 st = e["stmt"]
                 later = events[idx + 1:]
@@ -443,6 +445,21 @@ class E3(object):
             return False, "child rows are deleted selectively (%s)" % ",".join(sorted(eq))
         return False, "child delete is not keyed by its parent (%s)" % (
             e["stmt"].where.render() if e["stmt"].where else "no WHERE")
+
+    def _check_usage_handle(self, path, e):
+        """the usage database is optional: its handle is None unless configured,
+        so every statement on it must be dominated by a test of the handle"""
+        h = e.get("handle")
+        if h != ("cfg", "usage_db"):
+            return
+        known = pc_truth(e["pc"]).get(("cfg", "usage_db"))
+        if known is True:
+            return
+        what = construct_of(e) if e["k"] == "sql" else "%s: commit(usage)" % e["func"]
+        self.add("nullhandle", "%s [usage handle tested]" % what, e, False,
+                 "the statement runs on the usage-database handle without a test that one is "
+                 "configured: with no usage database the handle is None and the call raises "
+                 "AttributeError", path, "AttributeError")
 
     def _check_usage_insert(self, path, e):
         """usage records are appended without looking first: a declared UNIQUE
